@@ -331,7 +331,10 @@ impl Ar {
                 let lv = op.level();
                 let (lneed, rneed) = match op {
                     // base: term only (signs and nested ^ always parenthesised)
-                    Op::Pow => (a.level() < 7, b.level() < 6 || matches!(**b, Ar::Pos(_))),
+                    // base: term only (a sign under ^ is always parenthesised: the manual is silent and
+                    // rink reads -2^2 as 4); exponent: a further ^ chains to the right unparenthesised
+                    // (a^b^c = a^(b^c), the universal convention and what the parser implements)
+                    Op::Pow => (a.level() < 7, b.level() < 5 || matches!(**b, Ar::Pos(_))),
                     // `|` does not chain
                     Op::Frac => (a.level() <= 4, b.level() <= 4),
                     // juxtaposition: a later factor must not start with a sign
@@ -625,6 +628,8 @@ fn exponent() -> impl Strategy<Value = Ar> {
         1 => (small_int_lit(0, 6), small_int_lit(0, 6)).prop_map(|(a, b)| Ar::bin(Op::Add, a, b)),
         1 => (small_int_lit(1, 4), small_int_lit(1, 4)).prop_map(|(a, b)| Ar::bin(Op::Mul, a, b)),
         1 => (small_int_lit(0, 30), small_int_lit(1, 30)).prop_map(|(a, b)| Ar::bin(Op::Frac, a, b)),
+        2 => (small_int_lit(1, 3), small_int_lit(0, 3)).prop_map(|(a, b)| Ar::bin(Op::Pow, a, b)),
+        1 => (small_int_lit(2, 2), small_int_lit(1, 2), small_int_lit(0, 2)).prop_map(|(a, b, c)| Ar::bin(Op::Pow, a, Ar::bin(Op::Pow, b, c))),
         1 => Just(Ar::Lit(Lit { radix: 16, int_digits: "3".into(), frac_digits: None, exp: None, exp_style: 0, seps: vec![], upper_hex: false })),
     ]
 }
